@@ -135,7 +135,7 @@ def opc_expected(spec):
             k += 1
         elif p == "@k = 5;":
             k = 5
-    r = {"none": "none+done", "vm": "none+caught:69", "raise": "none+caught:1", "deep": "none+caught:4"}[rk]
+    r = {"none": "none+done", "vm": "none+caught:IndexError", "raise": "none+caught:Error:r", "deep": "none+caught:Error:deep"}[rk]
     return "[1, 2, '%s', 1, %d]\n[1, 4, '%s', 3, %d]\n" % (r, k, r, k)
 
 
